@@ -95,6 +95,32 @@ CLAIMS = {
           "at model level. Cython functions are atomic under the GIL. 2..16 free-running threads are not used as an "
           "oracle (only deterministic schedules are reported)."),
     technique="TLA+ spec + TLC over all interleavings; deterministic schedule enumeration on the real code; trace validation"),
+ "C05": dict(
+    level="model_checking",
+    text=("spec/Filters.tla states the contract (DefSat/MaySat per row, MayOmit per row group, lenient NULL reading) and "
+          "transcribes the pruner (filter_row_groups, filter_out_stats, filter_out_cats, filter_val, filter_in, "
+          "filter_not_in). TLC checks PruneSound over every (row group contents x statistics x partition value x "
+          "program) in the bounds: it holds for the repaired `not in` rule and is violated by the rule the code has. "
+          "TLC then exports, per program, the contract verdicts and the mechanism prediction over the whole row-group "
+          "pool; the pool is written with the real writer (four datasets: statistics on/off x hive-partitioned or not; "
+          "int/float/text/timestamp columns) and filter_row_groups, to_pandas(filters) and count(filters) are compared "
+          "with the verdicts; the (op, constants, min, max) lattice is replayed into the real filter_val."),
+    design_ref="DESIGN.md section 5 C05, section 10",
+    note=("Bounds: values 0..3 + NULL, constants -1..4, sets of size <= 2 incl. empty, row groups of 1..2 (thorough 3) rows, "
+          "single atoms exhaustively, pairs (flat AND, explicit AND, OR) over a reduced atom set. Known finding KF-C05-1 "
+          "(`not in` prunes on a bound) cannot be repaired because stable baseline tests assert it."),
+    technique="TLA+ spec + TLC model checking of the transcribed pruner; TLC-generated verdict tables replayed end to end"),
+ "C13": dict(
+    level="model_checking",
+    text=("Same specification: RowFilterExact (all DefSat rows, only MaySat rows) is checked by TLC on the transcription of "
+          "_column_filter over the same bounded domain (holds for the repaired variant, violated by the as-found one), and "
+          "TLC's per-program verdict tables are compared with to_pandas(filters, row_filter=True) and count(..., "
+          "row_filter=True) on the real datasets, including alignment of the other columns with the selected rows; all "
+          "boolean masks of <= 6 rows over 1..3 row groups (v1 and v2 pages) are applied through row_filter=mask."),
+    design_ref="DESIGN.md section 5 C13, section 10",
+    note=("Three defects repaired (flat list OR-ed; page window with nulls; nullable/object comparisons raising). Known "
+          "findings: partition atoms ignored inside OR groups (KF-C13-1); consequence of KF-C05-1 (KF-C13-2)."),
+    technique="TLA+ spec + TLC model checking of the transcribed row filter; TLC-generated verdict tables replayed end to end"),
 }
 
 NOT_BUILT = "not built yet (construction order in DESIGN.md section 9)"
